@@ -13,9 +13,29 @@ Require Import Grist.Model.RefIndex Grist.Model.TwoWay Grist.Proofs.RefIndex_pro
 (* pair_ok: both reverse indexes exact, row ids positive and short, references only on existing rows and only to
    existing rows.  sym: b in A[a] <-> a in B[b]. *)
 
-(* A user-level update of column A on DISTINCT rows that succeeds keeps the pair symmetric (and well formed);
-   Ref or RefList on either side. *)
+(* A user-level update of column A ([Bulk]UpdateRecord: doBulkUpdateRecord, which since /repo commit 060dc6b keeps
+   the last occurrence of a row id named more than once) that succeeds keeps the pair symmetric (and well formed);
+   any row list, Ref or RefList on either side. *)
 Theorem twoway_symmetric_step : forall hack s rows vals s',
+  pair_ok s -> sym s -> length vals = length rows ->
+  user_update_a hack gra s rows vals = Ok s' -> pair_ok s' /\ sym s'.
+Proof.
+  intros hack s rows vals s' Hok Hsym Hlen H. rewrite user_update_a_gra in H.
+  exact (user_update_a_sym hack s rows vals s' Hok Hsym Hlen H).
+Qed.
+
+(* ... the same from the other side *)
+Theorem twoway_symmetric_step_b : forall hack s rows vals s',
+  pair_ok s -> sym s -> length vals = length rows ->
+  user_update_b hack gra s rows vals = Ok s' -> pair_ok s' /\ sym s'.
+Proof.
+  intros hack s rows vals s' Hok Hsym Hlen H. rewrite user_update_b_gra in H.
+  exact (user_update_b_sym hack s rows vals s' Hok Hsym Hlen H).
+Qed.
+
+(* The part of doBulkUpdateRecord after the de-duplication (update_a: convert/prepare, trim, extra actions, doc
+   action), on its own, needs DISTINCT row ids. *)
+Theorem twoway_symmetric_step_distinct : forall hack s rows vals s',
   pair_ok s -> sym s -> NoDup rows -> length vals = length rows ->
   update_a hack gra s rows vals = Ok s' -> pair_ok s' /\ sym s'.
 Proof.
@@ -23,8 +43,7 @@ Proof.
   destruct (update_a_sym hack s rows vals s' Hok Hsym Hnd Hlen H) as [H1 [H2 _]]. split; assumption.
 Qed.
 
-(* ... the same from the other side *)
-Theorem twoway_symmetric_step_b : forall hack s rows vals s',
+Theorem twoway_symmetric_step_b_distinct : forall hack s rows vals s',
   pair_ok s -> sym s -> NoDup rows -> length vals = length rows ->
   update_b hack gra s rows vals = Ok s' -> pair_ok s' /\ sym s'.
 Proof. intros hack s rows vals s' Hok Hsym Hnd Hlen H. rewrite update_b_gra in H. eapply update_b_sym; eassumption. Qed.
@@ -37,19 +56,23 @@ Theorem twoway_symmetric_add : forall hack same s rows vals s',
 Proof. intros hack same s rows vals s' H1 H2 H3 H4 H5 H6 H. rewrite add_a_gra in H. eapply add_a_sym; eassumption. Qed.
 
 (* A change that would give a single-valued (Ref) side two targets is rejected: the update fails with the UNIQUE
-   error exactly when the reverse column is a Ref and some adjusted row would be referred to by two or more rows... *)
+   error exactly when the reverse column is a Ref and some adjusted row would be referred to by two or more rows
+   (rows', vals': the action after the de-duplication)... *)
 Theorem unique_violation_rejected : forall hack s rows vals,
+  let rows' := select (keep_last rows) rows in
+  let vals' := select (keep_last rows) vals in
   let ka := rc_kind (p_a s) in
-  let radj := gra rows (map (raw_get (p_a s)) rows) (map (clean_up hack ka) vals) (value_iterable ka) (rc_inv (p_a s)) in
-  update_a hack gra s rows vals = Err EUnique <->
+  let radj := gra rows' (map (raw_get (p_a s)) rows') (map (clean_up hack ka) vals') (value_iterable ka) (rc_inv (p_a s)) in
+  user_update_a hack gra s rows vals = Err EUnique <->
   rc_kind (p_b s) = KRef /\ exists t l, In (t, l) radj /\ 2 <= length l.
-Proof. intros. apply unique_violation_iff. Qed.
+Proof. intros. unfold user_update_a. apply unique_violation_iff. Qed.
 
 (* ... and the error is raised by prepare_new_values, before any doc action is applied: no cell, no index entry has
    been touched (the model's result carries no state; the engine's rollback of earlier actions of the bundle is C04). *)
 Theorem unique_violation_leaves_state : forall hack s rows vals,
-  update_a hack gra s rows vals = Err EUnique ->
-  prepare_new_values hack gra (p_a s) (rc_kind (p_b s)) rows vals = Err EUnique.
+  user_update_a hack gra s rows vals = Err EUnique ->
+  prepare_new_values hack gra (p_a s) (rc_kind (p_b s)) (select (keep_last rows) rows) (select (keep_last rows) vals)
+    = Err EUnique.
 Proof. intros. apply unique_error_is_pure. assumption. Qed.
 
 (* recalc_from_reverse_values (AddReverseColumn; after a Ref<->RefList switch of A): whatever B held on its rows,
@@ -77,10 +100,11 @@ Theorem removal_keeps_sym : forall hack same s removed,
     pair_ok s' /\ sym s'.
 Proof. intros. apply removal_keeps_sym_proof; assumption. Qed.
 
-(* The full statement (no NoDup hypothesis) is false for the code as it is: a bulk update naming the same row twice
-   is accepted and leaves the pair asymmetric (get_reverse_adjustments records both values of the row as additions,
-   the doc action keeps only the last). *)
-Definition twoway_symmetric_step_full : Prop := forall hack s rows vals s',
+(* Regression example (repaired by 060dc6b, finding C11-bulk-update-repeated-row-id): WITHOUT the de-duplication, i.e.
+   for update_a applied to the raw row list as doBulkUpdateRecord did before, the statement without NoDup is false:
+   a bulk update naming the same row twice was accepted and left the pair asymmetric (get_reverse_adjustments
+   records both values of the row as additions, the doc action keeps only the last). *)
+Definition twoway_symmetric_step_old_code : Prop := forall hack s rows vals s',
   pair_ok s -> sym s -> length vals = length rows ->
   update_a hack gra s rows vals = Ok s' -> sym s'.
 
@@ -102,7 +126,7 @@ Qed.
 Lemma rows_ok_12 : rows_ok [1; 2].
 Proof. intros r [<-|[<-|[]]]; split; cbn; lia. Qed.
 
-Theorem C11_refuted_duplicate_row_ids : ~ twoway_symmetric_step_full.
+Example C11_refuted_duplicate_row_ids : ~ twoway_symmetric_step_old_code.
 Proof.
   intros H.
   destruct (empty_pair_ok KRefList KRefList [1; 2] [1; 2] rows_ok_12 rows_ok_12) as [Hok Hsym].
@@ -115,7 +139,22 @@ Proof.
   rewrite Ea, Eb in H. cbn in H. destruct H as [_ H]. destruct (H (or_introl eq_refl)) as [H1|[]]. discriminate.
 Qed.
 
-(* A second way the code escapes the property: ONE action that writes both columns of a self-referential pair
+(* ... and with the de-duplication the same input is fine: A[1] = [2], B = [None; [1]]. *)
+Example C11_duplicate_row_ids_now_symmetric : exists s',
+  user_update_a (fun _ => None) gra (empty_pair KRefList KRefList [1; 2] [1; 2]) [1; 1] [CList [1%Z]; CList [2%Z]] = Ok s' /\
+  map (raw_get (p_a s')) [1; 2] = [CList [2%Z]; CNone] /\ map (raw_get (p_b s')) [1; 2] = [CNone; CList [1%Z]] /\
+  pair_ok s' /\ sym s'.
+Proof.
+  destruct (empty_pair_ok KRefList KRefList [1; 2] [1; 2] rows_ok_12 rows_ok_12) as [Hok Hsym].
+  assert (E : exists s', user_update_a (fun _ => None) gra (empty_pair KRefList KRefList [1; 2] [1; 2]) [1; 1]
+                           [CList [1%Z]; CList [2%Z]] = Ok s') by (eexists; vm_compute; reflexivity).
+  destruct E as [s' E]. exists s'. split; [exact E|].
+  destruct (twoway_symmetric_step _ _ [1; 1] [CList [1%Z]; CList [2%Z]] _ Hok Hsym eq_refl E) as [H1 H2].
+  vm_compute in E. inversion E; subst s'. split; [vm_compute; reflexivity|]. split; [vm_compute; reflexivity|].
+  split; assumption.
+Qed.
+
+(* The way the code still escapes the property: ONE action that writes both columns of a self-referential pair
    (both columns live in the same table).  Each column's adjustments are computed from the old state and then
    overwritten by the explicit values, so contradictory values are accepted: from the empty pair on rows 1..3,
    A[1] := [2] together with B[2] := [3] succeeds and leaves A[1] = [2] with B[2] = [3]. *)
@@ -124,7 +163,7 @@ Proof. intros r [<-|[<-|[<-|[]]]]; split; cbn; lia. Qed.
 
 Theorem C11_refuted_both_sides : exists s rows va vb s',
   pair_ok s /\ sym s /\ NoDup rows /\ p_rows_a s = p_rows_b s /\
-  update_both (fun _ => None) gra s rows va vb = Ok s' /\ ~ sym s'.
+  user_update_both (fun _ => None) gra s rows va vb = Ok s' /\ ~ sym s'.
 Proof.
   destruct (empty_pair_ok KRefList KRefList [1; 2; 3] [1; 2; 3] rows_ok_123 rows_ok_123) as [Hok Hsym].
   exists (empty_pair KRefList KRefList [1; 2; 3] [1; 2; 3]), [1; 2], [CList [2%Z]; CNone], [CNone; CList [3%Z]].
@@ -154,15 +193,15 @@ Proof.
   destruct E1 as [s1 E1].
   assert (Hnd1 : NoDup [1]) by (repeat constructor; cbn; intuition lia).
   assert (Hnd2 : NoDup [1; 2]) by (repeat constructor; cbn; intuition lia).
-  destruct (twoway_symmetric_step _ _ [1] [CList [1; 2]%Z] _ Hok Hsym Hnd1 eq_refl E1) as [Hok1 Hsym1].
+  destruct (twoway_symmetric_step_distinct _ _ [1] [CList [1; 2]%Z] _ Hok Hsym Hnd1 eq_refl E1) as [Hok1 Hsym1].
   assert (E2 : exists s2, update_a (fun _ => None) gra s1 [1; 2] [CList [1%Z]; CList [2%Z]] = Ok s2).
   { vm_compute in E1. inversion E1; subst s1. eexists. vm_compute. reflexivity. }
   destruct E2 as [s2 E2].
-  destruct (twoway_symmetric_step _ _ [1; 2] [CList [1%Z]; CList [2%Z]] _ Hok1 Hsym1 Hnd2 eq_refl E2) as [Hok2 Hsym2].
+  destruct (twoway_symmetric_step_distinct _ _ [1; 2] [CList [1%Z]; CList [2%Z]] _ Hok1 Hsym1 Hnd2 eq_refl E2) as [Hok2 Hsym2].
   assert (E3 : exists s3, update_b (fun _ => None) gra s2 [1] [CInt 2] = Ok s3).
   { vm_compute in E1. inversion E1; subst s1. vm_compute in E2. inversion E2; subst s2. eexists. vm_compute. reflexivity. }
   destruct E3 as [s3 E3].
-  destruct (twoway_symmetric_step_b _ _ [1] [CInt 2] _ Hok2 Hsym2 Hnd1 eq_refl E3) as [Hok3 Hsym3].
+  destruct (twoway_symmetric_step_b_distinct _ _ [1] [CInt 2] _ Hok2 Hsym2 Hnd1 eq_refl E3) as [Hok3 Hsym3].
   exists s1, s2, s3. split; [exact E1|].
   vm_compute in E1. inversion E1; subst s1. vm_compute in E2. inversion E2; subst s2.
   vm_compute in E3. inversion E3; subst s3.
@@ -197,7 +236,7 @@ Proof.
   assert (E1 : exists s1, update_a (fun _ => None) gra (empty_pair KRefList KRefList [1; 2] [1; 2]) [1; 2]
                             [CList [1; 2]%Z; CList [2%Z]] = Ok s1) by (eexists; vm_compute; reflexivity).
   destruct E1 as [s1 E1].
-  destruct (twoway_symmetric_step _ _ [1; 2] [CList [1; 2]%Z; CList [2%Z]] _ Hok Hsym Hnd2 eq_refl E1) as [Hok1 Hsym1].
+  destruct (twoway_symmetric_step_distinct _ _ [1; 2] [CList [1; 2]%Z; CList [2%Z]] _ Hok Hsym Hnd2 eq_refl E1) as [Hok1 Hsym1].
   pose proof Hok1 as [Hia [Hib [Hra [Hrb [Hca Hcb]]]]].
   assert (Rows : p_rows_a s1 = [1; 2] /\ p_rows_b s1 = [1; 2]).
   { vm_compute in E1. inversion E1; subst s1. split; reflexivity. }
